@@ -376,7 +376,34 @@ Section Render.
   (* what the emitted tag must look like to a parser: pre ++ (the raw Attributes chunk, parsed) ++ post *)
   Definition expected_attrs (el : elem) (raw : list (str * str)) : list (str * str) :=
     pre_attrs el ++ raw ++ post_attrs el.
+
+  (* the premise of Render: a legal tag name and every value it is about to write may stand between
+     double quotes (decidable; the same predicate the checker evaluates) *)
+  Definition el_safe_b (el : elem) (raw : list (str * str)) : bool :=
+    xml_name (e_tag el) && forallb attr_ok (expected_attrs el raw).
 End Render.
+
+(* the raw Attributes chunk is what printing [raw] gives (without the leading blank), optionally followed by
+   one blank (d2svg builds it from marker-start/marker-end/mask pieces that end in a blank) *)
+Definition padtxt (pad : bool) : str := if pad then [32] else [].
+Definition raw_consistent (el : elem) (raw : list (str * str)) (pad : bool) : bool :=
+  match e_attributes el with
+  | [] => match raw with [] => negb pad | _ => false end
+  | a => str_eqb (32 :: a) (attrs_text raw ++ padtxt pad)
+  end.
+
+(* field-wise premise (what a caller of Render has to guarantee): every string field may stand between
+   double quotes, the numbers were printed safely, the raw chunk consists of safe attributes *)
+Definition theme_ok (th : option (list (str * str))) : bool :=
+  match th with Some t => forallb (fun p => val_ok (snd p)) t | None => true end.
+Definition opt_val_ok (o : option str) : bool := match o with Some v => val_ok v | None => true end.
+Definition fields_safe (el : elem) (raw : list (str * str)) : bool :=
+  xml_name (e_tag el) && val_ok (e_href el) && forallb opt_val_ok (e_nums el)
+  && val_ok (e_dash el) && val_ok (e_d el) && val_ok (e_mask el) && val_ok (e_points el)
+  && val_ok (e_transform el) && val_ok (e_xmlns el)
+  && val_ok (e_fill el) && val_ok (e_stroke el) && val_ok (e_bg el) && val_ok (e_color el)
+  && val_ok (e_class el) && val_ok (e_style el) && forallb attr_ok raw && val_ok (e_clip el)
+  && theme_ok (e_theme el).
 
 (* ------------------------------------------------------------------------------------------------ *)
 (* (c) lib/color                                                                                    *)
@@ -568,8 +595,8 @@ Section GradientSVG.
     match ss with
     | [] => []
     | s :: r =>
-        TEmpty n_stop [(k_offset, esc (offset_of total i s)); (k_stop_color, esc (st_color s))]
-        :: TText [10] :: stops_tokens esc total (S i) r
+        TText [10] :: TEmpty n_stop [(k_offset, esc (offset_of total i s)); (k_stop_color, esc (st_color s))]
+        :: stops_tokens esc total (S i) r
     end.
 
   Definition lin_attrs (esc : str -> str) (g : gradient) : list (str * str) :=
@@ -591,9 +618,9 @@ Section GradientSVG.
   Definition gradient_tokens (esc : str -> str) (g : gradient) : list token :=
     let n := List.length (g_stops g) in
     if str_eqb (g_type g) s_linear then
-      TOpen n_lingrad (lin_attrs esc g) :: TText [10] :: stops_tokens esc n O (g_stops g) ++ [TClose n_lingrad]
+      TOpen n_lingrad (lin_attrs esc g) :: stops_tokens esc n O (g_stops g) ++ [TText [10]; TClose n_lingrad]
     else if str_eqb (g_type g) s_radial then
-      TOpen n_radgrad [(k_id, esc (g_id g))] :: TText [10] :: stops_tokens esc n O (g_stops g) ++ [TClose n_radgrad]
+      TOpen n_radgrad [(k_id, esc (g_id g))] :: stops_tokens esc n O (g_stops g) ++ [TText [10]; TClose n_radgrad]
     else [].
 
   Definition id_esc (s : str) : str := s.
@@ -601,9 +628,15 @@ Section GradientSVG.
   Definition gradient_to_svg_fixed := gradient_svg escape_text.    (* repaired code *)
 End GradientSVG.
 
-(* the stop tokens of a gradient that may be written without escaping *)
-Definition stop_safe (total i : nat) (pct : nat -> nat -> str) (s : stop) : bool :=
-  val_ok (st_color s) && val_ok (match st_pos s with [] => pct i total | p => p end).
+(* every value a gradient definition writes (through esc) may stand between double quotes *)
+Fixpoint stops_ok (pct : nat -> nat -> str) (esc : str -> str) (total i : nat) (ss : list stop) : bool :=
+  match ss with
+  | [] => true
+  | s :: r => val_ok (esc (offset_of pct total i s)) && val_ok (esc (st_color s)) && stops_ok pct esc total (S i) r
+  end.
+
+Definition gradient_ok (pct : nat -> nat -> str) (deg : str -> option (str * str)) (esc : str -> str) (g : gradient) : bool :=
+  forallb attr_ok (lin_attrs deg esc g) && stops_ok pct esc (List.length (g_stops g)) O (g_stops g).
 
 (* ------------------------------------------------------------------------------------------------ *)
 (* (d) whole-document observables: no element or attribute name contains a sentinel that the harness
